@@ -111,9 +111,23 @@ func call(h string, a ...val.V) val.V {
 }
 func lst(a ...val.V) val.V { return val.V{K: val.List, L: append([]val.V{}, a...)} }
 
-func (g *pg) pick(label string, n int) int { return rapid.IntRange(0, n-1).Draw(g.t, label) }
-func (g *pg) chance(label string, oneIn int) bool {
-	return rapid.IntRange(0, oneIn-1).Draw(g.t, label) == 0
+func (g *pg) pick(label string, n int) int        { return rapid.IntRange(0, n-1).Draw(g.t, label) }
+func (g *pg) chance(label string, oneIn int) bool { return Chance(g.t, label, oneIn) }
+
+// Chance is true with probability ~1/oneIn. rapid's integer generators are heavily
+// biased towards small values (0 comes up ~10% of the time in IntRange(0,299)), so the
+// draw is mixed before it is reduced; the shrink target (0) means "no event".
+func Chance(t *rapid.T, label string, oneIn int) bool {
+	x := rapid.Uint64().Draw(t, label)
+	if x == 0 || oneIn <= 0 {
+		return false
+	}
+	x ^= x >> 33
+	x *= 0xff51afd7ed558ccd
+	x ^= x >> 33
+	x *= 0xc4ceb9fe1a85ec53
+	x ^= x >> 33
+	return x%uint64(oneIn) == uint64(oneIn-1)
 }
 func (g *pg) use(s string) { g.uses[s] = true }
 
@@ -138,7 +152,7 @@ func Program(t *rapid.T, f PFlags) Prog {
 		f.MaxRec = 6
 	}
 	g := &pg{t: t, f: f, budget: f.Budget, uses: map[string]bool{}}
-	if !f.NoFaults && rapid.IntRange(0, 9).Draw(t, "faulty-program") < 3 {
+	if !f.NoFaults && Chance(t, "faulty-program", 4) {
 		g.faultsLeft = 1
 	}
 	var sc scope
@@ -373,14 +387,14 @@ func (g *pg) body(ty Ty, d int, sc scope) []val.V {
 
 func (g *pg) expr(ty Ty, d int, sc scope) val.V {
 	g.budget--
-	if g.faultsLeft > 0 && g.chance("fault?", 25) {
+	if g.faultsLeft > 0 && g.chance("fault?", 15) {
 		g.faultsLeft--
 		return g.faulty(sc)
 	}
 	if d <= 0 || g.budget <= 0 {
 		return g.leaf(ty, sc)
 	}
-	if g.f.Try && ((g.inTry > 0 && g.chance("throwpt", 14)) || g.chance("throwtop", 300)) {
+	if g.f.Try && ((g.inTry > 0 && g.chance("throwpt", 12)) || g.chance("throwtop", 150)) {
 		return g.throwPoint(d, sc)
 	}
 	if len(g.macros) > 0 && g.chance("macrocall", 7) {
